@@ -26,4 +26,17 @@ CHECKS = {
         assumptions=COMMON_ASSUME + ["domain: window>=1, warm-up>=1, alpha in (0,1], samples finite and in [1,2^50]; value oracles are "
                                      "suspended after an Update until the next Reset (Update may move the value arbitrarily)"],
     ),
+    "C04": dict(
+        pkg="c04", race=False, shards=(4, 16), timeout_s=(300, 1800),
+        technique="bounds-and-recover monitor after every sample over hostile seeded sample sequences",
+        level_text="After every OnSample (run under recover) of AIMD/Vegas/Gradient/Gradient2, bare and wrapped by windowed/traced limits, the "
+                   "reported estimate is checked against [max(1,min), max(max,initial)] (AIMD: max(initial, max in-flight seen + increment)); "
+                   "int(NaN) shows up as MinInt64 and trips the same bound. Hostile inputs: rtt 0/1/baseline/up to 2^62, in-flight 0..2^31-1, "
+                   "drop-only phases. Exploration over seeded sequences, not a proof for all inputs.",
+        require=["samples", "estimate_changes", "cases_with_rtt_zero", "cases_with_drop_only_phase"],
+        rule="PRNG valid configuration (min<=initial incl. initial>max, smoothing/backoff in (0,1], queue allowance<=max) x wrapper "
+             "(bare, windowed, traced, traced+windowed) x 50-400 samples from hostile/benign phases; non-trivial = the reported estimate changed at "
+             "least once; distinct = distinct (config, wrapper, length, first sample).",
+        assumptions=COMMON_ASSUME + ["configuration domain as stated in the property (valid configurations); Gradient initial >= its floor"],
+    ),
 }
